@@ -313,6 +313,27 @@ theorem stream (hash : Hash) (ms : List Msg) (h : ∀ m ∈ ms, wf hash m = true
   subst hfr'
   exact hdec
 
+/-! ## "any defined status", "new, cancel and update", the four link actions
+
+`wf` asks that the message can be encoded (`msgVal m` exists). These theorems show that this is no
+restriction for the values the Go API defines: every `ResponseStatusCode` constant of
+responsecode.go, every request type and every `LinkAction` constant of graphsync.go has a wire
+form in schema.ipldsch (and the schema defines no status the Go side lacks). They are statements
+about the regenerated tables, so editing a constant or the schema re-checks them. -/
+
+theorem defined_status_encodable :
+    ∀ s ∈ GS.Generated.Schema.goStatusCodes, (statusToVal (Int.ofNat s)).isSome = true := by decide
+
+theorem schema_status_defined :
+    ∀ s ∈ GS.Generated.Schema.statusEnum, GS.Generated.Schema.goStatusCodes.contains s = true := by decide
+
+theorem request_types_encodable (t : ReqType) :
+    (enumEncode GS.Generated.Schema.requestTypeEnum t.goName).isSome = true := by
+  cases t <;> decide
+
+theorem link_actions_encodable :
+    ∀ a ∈ goLinkActions, (enumEncode GS.Generated.Schema.linkActionEnum a).isSome = true := by decide
+
 /-! ## what the hypotheses exclude (each checked on the real code by the `rtx` cases) -/
 
 /-- a frame above 4 MiB is rejected by the reader, whatever it contains: `ToNet` has no size check,
